@@ -90,10 +90,12 @@ class Elaborator:
         # Modules on which a pass failed are not among them: those stay as they are, and report their failure again when that pass is reached.
         caches = [elabpass.CLASS_LEVEL_CACHE for elabpass in self.passes]
         if not any(cache.pending for cache in caches):
-            failed = set().union(*(cache.failed.keys() for cache in caches))
             for cache in caches:
-                unfinished = [m for m in cache.done if m._elaborated is None and m not in failed]
-                cache.done.difference_update(unfinished)
+                # Only the modules this pass has handled since the last run began can be among them.
+                for m in cache.recent:
+                    if m._elaborated is None and not any(m in c.failed for c in caches):
+                        cache.done.discard(m)
+                cache.recent.clear()
 
         # Pass `tops` through each of our passes, in order
         for elabpass in self.passes:
